@@ -20,7 +20,7 @@ LEVEL_TEXT = ('Lean 4 theorems at ℂ/ℝ, stated over the C02 propagation model
               'through C09 fft_eq_propagate_dft (which contains fftshift∘fft2(ortho)∘ifftshift = centred unitary dft2, C09 fft_path_is_unitary_dft_complex — cited, not restated here) the whole FFT propagator (grid shape, padding or scratch, crop; any number of '
               'fields; isotropic dx·du, or — propagate_fft_energy_consistent — a possibly non-square grid consistent with both samplings, S0·dx0·du0 = S1·dx1·du1) returns at most the input power and exactly it on the full grid (both clauses instantiated on accepted calls by `example`s: plain 4×4 call; explicit shape, dirty scratch, non-square consistent grid); normalize_power (factor and default target regenerated from util.py; the call that omits the target yields unit power: normalize_power_default_power) '
               'yields power p ≥ 0 for every input of non-zero power at every input scale, a pupil images to its amplitude·mask power (through C07 Plane.multiply), and as one statement a pupil whose amplitude is normalize_power(a, p) images to total exactly p (normalized_pupil_images_to_p: monolithic mask, propagate_dft, full period; normalized_pupil_images_to_p_fft: the same pupil through the C09 model of propagate_fft, whole grid returned, isotropic or grid-consistent sampling). The propagate_dft correspondence runs the C02 model itself (Gen.dftWindow, Gen.maskShape/Shift, dftAlpha) '
-              'at doubles, the propagate_fft correspondence runs the C09 model propagateFft (generated grid shape, guards, scratch regions); normalize_power runs Model/Energy.lean. Wavefront.insert(out, weight) of a propagated wavefront (wavefront_insert_weighted_energy): the loop as regenerated from wavefront.py (Gen.insertWiring: reduce, intensity, weight passed on) and field.insert\'s regenerated accumulation statement add weight·|Σ fields|² to every sample of any accumulator and weight·Σ|input|² in total over a covered period; the op c05.insert_weighted runs that loop on the C02 model\'s fields against the real call.')
+              'at doubles, the propagate_fft correspondence runs the C09 model propagateFft (generated grid shape, guards, scratch regions); normalize_power runs Model/Energy.lean. Wavefront.insert(out, weight) of a propagated wavefront (wavefront_insert_weighted_energy): the loop as regenerated from wavefront.py (Gen.insertWiring: reduce, intensity, weight passed on) and field.insert\'s regenerated accumulation statement add weight·|Σ fields|² to every sample of any accumulator and weight·Σ|input|² in total over a covered period; the op c05.insert_weighted runs that loop on the C02 model\'s fields against the real call; and the array Wavefront.intensity itself returns (wfIntensity = viewRun Gen.intensityWiring: fresh zeros, reduce, intensity, default weight — regenerated) has every sample |Σ fields|² and sums to Σ|input|² over a covered period (wavefront_intensity_period_energy).')
 LEVEL_NOTE = ('Trusted, stated plainly: the FFT clauses rest on C09\'s model of _fft2 (generated index maps, fft2 contract): that NumPy\'s '
               'fft2(norm="ortho") computes the unitary DFT sum, and that fftshift/ifftshift are the stated index maps, is assumed there and only observed '
               'differentially. Wavefront.intensity = |Wavefront.field|² and reduce keeping the total are C07/C06 theorems, cited not '
